@@ -19,6 +19,15 @@ def configs(ctx):
 
 def run(ctx):
     fam.run_family(ctx, PROP, configs(ctx), max_exec=ctx.pick(60_000, 2_000_000), budget_s=ctx.pick(150, 3000))
+    # the real stack end to end (vcluster), default schedule plus every single schedule deviation
+    from vf import vc_explore
+
+    names = ctx.pick(["diamond/all", "multi/split"], ["diamond/all", "multi/split", "mixed-kw", "fork/root-requested", "multi/mid"])
+    shapes = ctx.pick([(1, 2), (2, 1)], [(1, 2), (2, 1), (2, 2)])
+    vcfgs = [Config(s, h, w, (), 1) for s in fam.curated() if s.name in names for (h, w) in shapes]
+    n = vc_explore.explore(ctx, vcfgs, PROP, bound=1)
+    ctx.coverage["vcluster_executions_delay_bound_1"] = n
+    ctx.coverage["traces_validated_against_impl"] += n
     ctx.assume(
         "cluster behind the Bridge is the SimCluster reference model (eager causal execution, exactly-once FIFO-per-origin event delivery)",
         "task callables are term constructors; value equality = equality of the whole expression tree",
@@ -27,6 +36,10 @@ def run(ctx):
 
 
 def replay(ctx, data):
+    if data.get("vcluster"):
+        from vf import vc_explore
+
+        return vc_explore.replay(data)
     if data.get("choices") == [] and "explore" in data:
         res = explore(config_from_json(data["config"]))
         if res["stats"]["outcomes"] > 1:
